@@ -259,6 +259,8 @@ func classify(msg string) string {
 		return "dup-top:" + strings.TrimPrefix(msg, "duplicate top-level identifier: ")
 	case has("duplicate field name: "):
 		return "dup-field:" + strings.TrimPrefix(msg, "duplicate field name: ")
+	case has("duplicate enum field name: "):
+		return "dup-enum-field:" + strings.TrimPrefix(msg, "duplicate enum field name: ")
 	case has("oneof cannot have dict modifier"):
 		return "oneof-dict"
 	case has("oneof cannot be a root"):
@@ -479,6 +481,9 @@ func wellFormed(s *schema.Schema) (sig, desc string) {
 	return "", ""
 }
 
+// dupEnumMember names an enum member that an ACCEPTED schema declares twice (finding
+// dup-enum-member-accepted, fixed in ed6fa67: the parser now answers "duplicate enum field
+// name"). The check stays so that a regression is reported under its old signature.
 func dupEnumMember(s *schema.Schema) string {
 	for _, k := range sortedKeys(s.Enums) {
 		seen := map[string]bool{}
@@ -1218,6 +1223,7 @@ type genOpts struct {
 	arrayElemDict bool // dict on array element types allowed
 	rootless      bool
 	oddFormat     bool
+	dupEnumMember bool // one enum repeats one of its member names (an INVALID schema: error path)
 }
 
 type gdef struct {
@@ -1393,6 +1399,19 @@ func genSchema(r *rng.R, o genOpts) string {
 		rootSet[structs[r.Intn(len(structs))]] = true
 	}
 	dictNames := []string{"D", "D2", genIdent(r, map[string]bool{}), "Shared"}
+	// the enum that gets the repeated member name (dupEnumMember): any of the enums
+	dupEnum := ""
+	if o.dupEnumMember {
+		var es []string
+		for _, d := range defs {
+			if d.kind == "enum" {
+				es = append(es, d.name)
+			}
+		}
+		if len(es) > 0 {
+			dupEnum = es[r.Intn(len(es))]
+		}
+	}
 	w := &writer{r: r, odd: o.oddFormat}
 	if w.odd && r.Bool() {
 		w.b.WriteString("// generated\n")
@@ -1521,8 +1540,21 @@ func genSchema(r *rng.R, o genOpts) string {
 			w.glue("{")
 			ne := r.Intn(5)
 			eu := map[string]bool{}
+			dupAt := -1
+			if o.dupEnumMember && d.name == dupEnum {
+				ne = 2 + r.Intn(4)
+				dupAt = 1 + r.Intn(ne-1)
+			}
+			var members []string
 			for i := 0; i < ne; i++ {
-				w.tok(genIdent(r, eu))
+				m := ""
+				if i == dupAt {
+					m = members[r.Intn(len(members))] // repeats an earlier member, adjacent or not
+				} else {
+					m = genIdent(r, eu)
+				}
+				members = append(members, m)
+				w.tok(m)
 				w.glue("=")
 				v := uint64(r.Intn(10))
 				if r.Chance(1, 5) {
@@ -1753,7 +1785,12 @@ var fixedParseCases = []string{
 	"package a struct A root { X int64 dict(D) }", "package a struct A root { X string dict(D) }",
 	"package a struct A root { X string dict() }", "package a struct A root { X string dict(D }",
 	"package a struct A root { X [] }", "package a struct A root { X [ int64 }", "package a struct A root { X [][]int64 }",
-	"package a struct A root { X E } enum E { A = 1 A = 2 }",
+	"package a struct A root { X E } enum E { A = 1 A = 2 }", // accepted before ed6fa67 (dup-enum-member-accepted)
+	"package a struct A root { X E } enum E { A = 1 B = 2 A = 3 }", "package a struct A root { X E } enum E { A = 1 A = 1 }",
+	"package a struct A root { X E } enum E { A = 1\n  B = 2\r\n  // c\n  B = 3 }", "package a struct A root { X E } enum E { A = 1 A }",
+	"package a struct A root { X int64 } enum E { A = 1 A = 2 }",            // unused enum: still an error (was pruned before)
+	"package a struct A root { X E Y F } enum E { A = 1 } enum F { A = 2 }", // same member in two enums: fine
+	"package a struct A root { X E } enum E { A = 1 a = 2 E = 3 X = 4 }",
 	"package a struct A root { X E dict(D) } enum E { A = 1 }",
 	"package a struct A root { X []E dict(D) } enum E { A = 1 }",
 	"package a struct A root { X E } enum E { A = }", "package a struct A root { X E } enum E { A = x }",
@@ -1847,6 +1884,23 @@ func runC12() {
 			note("note generator produced an input that does not parse: %s -> %s", quote(t), rr.out)
 		}
 		mutationCases(r, fmt.Sprintf("gen%d", k), t, false, 12)
+	}
+	// generated schemas in which one enum declares a member name twice: rejected with a
+	// positioned "duplicate enum field name" error since ed6fa67 (model and code must agree on
+	// class and position); accepted before (PROP-FAIL dup-enum-member-accepted when the enum is
+	// reachable from a root, i.e. survives PruneUnused).
+	n = 60
+	if thorough {
+		n = 1500
+	}
+	for k := 0; k < n; k++ {
+		o := genOpts{enums: true, arrayElemDict: r.Bool(), oddFormat: r.Bool(), dupEnumMember: true}
+		t := genSchema(r, o)
+		rr := parseCase(fmt.Sprintf("gendupenum%d", k), t)
+		stats["gen-dup-enum-member"]++
+		if rr.kind == "err" && strings.HasPrefix(rr.class, "dup-enum-field:") {
+			stats["gen-dup-enum-member-rejected"]++
+		}
 	}
 	n = 1500
 	if thorough {
